@@ -467,3 +467,118 @@ class pLSCF_MS_run_C10(_RunC10):
         rp = a.fields["run_params"].fields
         c.assume(rp["ordmin"] <= rp["ordmax"])
         return {"self": a}
+
+
+# ----------------------------------------------------------------------------------
+# C13 / C04 at the call sites: the run parameters reach the spectral estimator unchanged
+# ----------------------------------------------------------------------------------
+
+@register
+class SD_svalsvec_havoc(_Havoc):
+    qualname = "pyoma2.functions.fdd.SD_svalsvec"
+    name = "havoc"
+
+    def spec(self, c, SD):
+        c.memo["ghost:SD_svalsvec"] = {"SD": SD}
+        return (sym.Opaque("S_val"), sym.Opaque("S_vec"))
+
+
+def fdd_algo(c, cls, multi=False, module="fdd"):
+    rp = Obj("pyoma2.algorithms.data.run_params.FDDRunParams", {
+        "nxseg": S.integer("nxseg", lo=2), "method_SD": "per", "pov": S.real("pov", lo=0, hi=1),
+        "sel_freq": None, "DF": S.real("DF", pos=True), "DF1": S.real("DF1", pos=True), "DF2": S.real("DF2", pos=True),
+        "cm": 1, "MAClim": S.real("MAClim"), "sppk": 3, "npmax": 20})
+    if c.branch(S.boolean("method_is_cor")):
+        rp.fields["method_SD"] = "cor"
+    data = sym.Opaque("multi-setup data") if multi else S.array("data", "float", ndim=2, finite=True, min_extent=1)
+    fs = S.real("fs", pos=True)
+    return Obj(f"pyoma2.algorithms.{module}." + cls, {"data": data, "fs": fs, "dt": sym.div(1, fs), "run_params": rp,
+                                                      "result": None, "name": cls})
+
+
+class _RunSpectral(Contract):
+    callable_modular = False
+    generic_replay = False
+    multi = False
+    use = dict(_RunC09.use)
+    use["pyoma2.functions.fdd.SD_svalsvec"] = "havoc"
+
+    def check(self, c, pre, post, outcome):
+        from pyvc.interp import assert_same
+        if outcome[0] != "return":
+            c.oblige("post", "no-exception", False, {"raised": outcome[1]})
+            return
+        slf = pre["self"].fields
+        rp = slf["run_params"].fields
+        if self.multi:
+            g = c.memo.get("ghost:SD_PreGER")
+            c.oblige("post", "SD_PreGER-called", g is not None)
+            if g is None:
+                return
+            c.oblige("post", "data", g["Y"] is post["self"].fields["data"])
+            c.oblige("post", "fs", sym.same(g["fs"], slf["fs"]))
+        else:
+            g = c.memo.get("ghost:SD_est")
+            c.oblige("post", "SD_est-called", g is not None)
+            if g is None:
+                return
+            want = N.transpose(pre["self"].fields["data"])
+            assert_same("Yall = data.T", g["Yall"], want, "post")
+            assert_same("Yref = data.T", g["Yref"], want, "post")
+            c.oblige("post", "dt", sym.same(g["dt"], slf["dt"]))
+        c.oblige("post", "nxseg", sym.eq(g["nxseg"], rp["nxseg"]))
+        c.oblige("post", "pov", sym.same(g["pov"], rp["pov"]))
+        c.oblige("post", "method", g["method"] == rp["method_SD"])
+        res = outcome[1].fields
+        c.oblige("post", "result.freq/Sy are the estimator's", isinstance(res.get("freq"), sym.Opaque) and res["freq"].tag == "freq"
+                 and isinstance(res.get("Sy"), sym.Opaque) and res["Sy"].tag == "Sy")
+
+
+@register
+class FDD_run_args(_RunSpectral):
+    qualname = "pyoma2.algorithms.fdd.FDD.run"
+    props = ("C13",)
+
+    def setup(self, c):
+        return {"self": fdd_algo(c, "FDD")}
+
+
+@register
+class pLSCF_run_args(_RunSpectral):
+    qualname = "pyoma2.algorithms.plscf.pLSCF.run"
+    name = "spectral-args"
+    props = ("C13",)
+
+    def setup(self, c):
+        return {"self": plscf_algo(c, "pLSCF")}
+
+
+@register
+class FDD_MS_run_args(_RunSpectral):
+    qualname = "pyoma2.algorithms.fdd.FDD_MS.run"
+    props = ("C04",)
+    multi = True
+
+    def setup(self, c):
+        return {"self": fdd_algo(c, "FDD_MS", multi=True)}
+
+
+@register
+class EFDD_MS_run_args(_RunSpectral):
+    qualname = "pyoma2.algorithms.fdd.EFDD_MS.run"
+    props = ("C04",)
+    multi = True
+
+    def setup(self, c):
+        return {"self": fdd_algo(c, "EFDD_MS", multi=True)}
+
+
+@register
+class pLSCF_MS_run_args(_RunSpectral):
+    qualname = "pyoma2.algorithms.plscf.pLSCF_MS.run"
+    name = "spectral-args"
+    props = ("C04",)
+    multi = True
+
+    def setup(self, c):
+        return {"self": plscf_algo(c, "pLSCF_MS", multi=True)}
